@@ -8,6 +8,7 @@ use crate::step::StepToken;
 pub struct StyleSheetOutput {
     s: String,
     prev_ser_type: TokenSerializationType,
+    prev_src_end: Option<crate::error::Position>,
     source_map: SourceMapBuilder,
     source_id: u32,
     utf16_len: u32,
@@ -21,6 +22,7 @@ impl StyleSheetOutput {
         Self {
             s: String::new(),
             prev_ser_type: TokenSerializationType::Nothing,
+            prev_src_end: None,
             source_id,
             source_map,
             utf16_len: 0,
@@ -53,6 +55,7 @@ impl StyleSheetOutput {
 
     pub(crate) fn append_raw(&mut self, s: &str) {
         self.prev_ser_type = TokenSerializationType::Nothing;
+        self.prev_src_end = None;
         let output_start_pos = self.s.len();
         self.s += s;
         self.utf16_len += str::encode_utf16(&self.s[output_start_pos..]).count() as u32;
@@ -60,9 +63,23 @@ impl StyleSheetOutput {
 
     pub(crate) fn append_token(&mut self, token: StepToken, src: Option<Token>) {
         let next_ser_type = token.serialization_type();
-        if self
-            .prev_ser_type
-            .needs_separator_when_before(next_ser_type)
+        // a signed number that touches the previous token in the source is written as it was
+        // (`U+0-7F`, `2n+1`): the two did not merge there, and a space in between may change the meaning
+        let signed = match &*token {
+            Token::Number {
+                has_sign, value, ..
+            }
+            | Token::Dimension {
+                has_sign, value, ..
+            } => *has_sign || value.is_sign_negative(),
+            _ => false,
+        };
+        let glued = signed && token.end.is_some() && self.prev_src_end == Some(token.position);
+        self.prev_src_end = token.end;
+        if !glued
+            && self
+                .prev_ser_type
+                .needs_separator_when_before(next_ser_type)
         {
             write!(&mut self.s, " ").unwrap();
             self.utf16_len += 1;
@@ -106,6 +123,7 @@ impl StyleSheetOutput {
     pub(crate) fn append_token_space_preserved(&mut self, token: StepToken, src: Option<Token>) {
         if let Token::WhiteSpace(_) = &*token {
             self.prev_ser_type = token.serialization_type();
+            self.prev_src_end = None;
             self.s.push(' ');
             self.utf16_len += 1;
         } else {
